@@ -246,6 +246,28 @@ int main(int argc, char** argv)
     tr::Ev e("opaque");
     e.str("ty", "struct PS").wide("in", 0).wide("back", 0).boolean("same_bytes", std::memcmp(&s, &s2, sizeof s) == 0);
     out.put(e);
+    {
+      // the opaque value is the value it was converted from, also when it is held by reference
+      // while the source changes afterwards
+      tainted<PS, Sbx> src = s;
+      const auto& held = src.to_opaque();
+      tainted<PS, Sbx> expect = src;
+      src.a = 7;
+      src.d = 9;
+      auto back = from_opaque(held);
+      tr::Ev e3("opaque");
+      e3.str("ty", "struct PS (held by reference, source modified)").wide("in", 0).wide("back", 0);
+      e3.boolean("same_bytes", std::memcmp(&expect, &back, sizeof expect) == 0);
+      out.put(e3);
+      tainted<long, Sbx> lsrc = 0x1234;
+      const auto& lheld = lsrc.to_opaque();
+      lsrc = 99;
+      auto lback = from_opaque(lheld);
+      tr::Ev e4("opaque");
+      e4.str("ty", "long (held by reference, source modified)").wide("in", 0x1234).wide("back", lback.UNSAFE_unverified());
+      e4.boolean("same_bytes", lback.UNSAFE_unverified() == 0x1234);
+      out.put(e4);
+    }
 #ifndef C20_NO_OPAQUE_ARRAY
     tainted<int[4], Sbx> arr;
     for (int i = 0; i < 4; i++) {
